@@ -422,6 +422,10 @@ Definition initial_sequence (k : kernel) : kernel * N :=
   (mkk (cfg k) (next_id k) (socks k) (binds k) (conns k) (cursor k) (addrs k) (outb k) (isn k + isn_step),
    isn k).
 
+(* verif-hooks `set_tcp_isn`: reposition the per-host ISN counter (test hook, 71a27bd) *)
+Definition set_isn (k : kernel) (v : N) : kernel :=
+  mkk (cfg k) (next_id k) (socks k) (binds k) (conns k) (cursor k) (addrs k) (outb k) v.
+
 (* tcp.rs `bound_endpoint` *)
 Definition bound_endpoint (s : socket) : sockaddr :=
   match s_bound s with Some b => (bk_addr b, bk_port b) | None => (mkip false 0, 0) end.
@@ -1032,7 +1036,8 @@ Inductive ev :=
 | EEgress | EDeliver (k : N) | EDrop (k : N) | EDup (k : N) | EFlush
 | ENetstat (h : N) | ECounts (h : N)
 | EUdpBind (slot h a port : N) | EUdpSend (slot n a port : N)
-| EUdpConnect (slot a port : N) | EUdpSendC (slot n : N).
+| EUdpConnect (slot a port : N) | EUdpSendC (slot n : N)
+| ESetIsn (h v : N).
 
 (* Observations are rows of numbers (first row starts with a tag:
    0 ok, 1 error code, 2 pending, 9 no such slot / packet). *)
@@ -1044,7 +1049,8 @@ Definition enc_flags (s : seg) : N :=
 
 Definition enc_packet (p : packet) : obs :=
   match body p with
-  | Tcp s => [[0; ia (psrc p); ia (pdst p); sport s; dport s; seqn s; ackn s; enc_flags s; win s]; payload s]
+  | Tcp s => [[0; ia (psrc p); ia (pdst p); sport s; dport s; seqn s mod 4294967296; ackn s mod 4294967296;
+               enc_flags s; win s]; payload s]      (* the wire carries u32 sequence numbers *)
   | Udp sp dp pl => [[1; ia (psrc p); ia (pdst p); sp; dp; len pl]; []]
   end.
 
@@ -1274,6 +1280,11 @@ Definition step (w : world) (e : ev) : world * obs :=
         end
       | _ => (w, o_none)
       end
+  | ESetIsn h v =>
+      match get_host w h with
+      | Some k => (set_host w h (set_isn k v), [[0]])
+      | None => (w, o_none)
+      end
   end.
 
 Fixpoint run (w : world) (es : list ev) : world * list obs :=
@@ -1451,7 +1462,7 @@ Inductive oev :=
 | OClose (fd : N)                            (* drop of a handle; also cancelling a pending connect *)
 | OUdpBind (a : sockaddr) | OUdpSend (fd : N) (pl : list N) (dst : sockaddr)
 | OUdpConnect (fd : N) (peer : sockaddr) | OUdpSendC (fd : N) (pl : list N)   (* UdpSocket::connect, send / try_send *)
-| ODeliver (p : packet) | OEgress.
+| ODeliver (p : packet) | OEgress | OSetIsn (v : N).
 
 Definition has_tcb_b (k : kernel) (fd : N) : bool :=
   match lookup k fd with Some s => match s_tcb s with Some _ => true | None => false end | None => false end.
@@ -1509,6 +1520,7 @@ Definition ostep (o : okern) (e : oev) : okern :=
       then mkok (fst (k_udp_send k fd pl)) (owned o) (acc_log o) else o
   | ODeliver p => mkok (k_deliver k p) (owned o) (acc_log o)
   | OEgress => mkok (fst (k_egress k)) (owned o) (acc_log o)
+  | OSetIsn v => mkok (set_isn k v) (owned o) (acc_log o)
   end.
 
 Definition orun (o : okern) (es : list oev) : okern := fold_left ostep es o.
